@@ -277,11 +277,13 @@ struct Shared
 {
     std::atomic<uint64_t> next;
     std::atomic<int64_t> current[64];
+    std::atomic<int64_t> sub[64];
 };
 
 static void worker_main(
     int w, size_t n, Shared* sh, int timeout_s, const std::string& dir,
-    const std::function<void(size_t, Emitter&)>& fn, double deadline_abs)
+    const std::function<void(size_t, int64_t, Emitter&, Sub&)>& fn, double deadline_abs, int64_t resume_case,
+    int64_t resume_from)
 {
     std::string outp = dir + "/out." + std::to_string(w);
     std::string errp = dir + "/err." + std::to_string(w);
@@ -298,17 +300,31 @@ static void worker_main(
     signal(SIGALRM, SIG_DFL);
     for (;;)
     {
-        if (deadline_abs > 0 && now_s() > deadline_abs) break;
-        uint64_t i = sh->next.fetch_add(1);
-        if (i >= n) break;
+        uint64_t i;
+        int64_t from = 0;
+        if (resume_case >= 0)
+        {
+            i = (uint64_t)resume_case;
+            from = resume_from;
+            resume_case = -1;
+        }
+        else
+        {
+            if (deadline_abs > 0 && now_s() > deadline_abs) break;
+            i = sh->next.fetch_add(1);
+            if (i >= n) break;
+        }
+        sh->sub[w].store(-1);
         sh->current[w].store((int64_t)i);
         if (ftruncate(efd, 0)) {}
         lseek(efd, 0, SEEK_SET);
         alarm(timeout_s);
         Emitter em(ofd, i);
+        Sub sub;
+        sub.slot = &sh->sub[w];
         try
         {
-            fn(i, em);
+            fn(i, from, em, sub);
         }
         catch (const std::exception& e)
         {
@@ -326,6 +342,15 @@ std::vector<CaseResult> run_pool(
     const std::function<void(size_t, Emitter&)>& fn, PoolStats* stats, double deadline_abs,
     bool* deadline_hit)
 {
+    return run_pool_sub(
+        n, jobs, per_case_timeout_s, [&](size_t i, int64_t, Emitter& e, Sub&) { fn(i, e); }, stats, deadline_abs, deadline_hit, 0);
+}
+
+std::vector<CaseResult> run_pool_sub(
+    size_t n, int jobs, int per_case_timeout_s,
+    const std::function<void(size_t, int64_t, Emitter&, Sub&)>& fn, PoolStats* stats, double deadline_abs,
+    bool* deadline_hit, size_t max_resumes)
+{
     std::vector<CaseResult> res(n);
     if (n == 0) return res;
     if (jobs > 64) jobs = 64;
@@ -337,19 +362,20 @@ std::vector<CaseResult> run_pool(
     new (sh) Shared();
     sh->next.store(0);
     for (auto& c : sh->current) c.store(-1);
+    for (auto& c : sh->sub) c.store(-1);
     std::map<pid_t, int> pids;
     fflush(stdout);
     fflush(stderr);
-    auto spawn = [&](int w) {
+    auto spawn = [&](int w, int64_t rc, int64_t rf) {
         pid_t p = fork();
         if (p == 0)
         {
-            worker_main(w, n, sh, per_case_timeout_s, dir, fn, deadline_abs);
+            worker_main(w, n, sh, per_case_timeout_s, dir, fn, deadline_abs, rc, rf);
             _exit(0);
         }
         pids[p] = w;
     };
-    for (int w = 0; w < jobs; ++w) spawn(w);
+    for (int w = 0; w < jobs; ++w) spawn(w, -1, 0);
     std::vector<char> done(n, 0);
     while (!pids.empty())
     {
@@ -364,6 +390,27 @@ std::vector<CaseResult> run_pool(
         if (abnormal)
         {
             int64_t cur = sh->current[w].load();
+            int64_t substep = sh->sub[w].load();
+            if (cur >= 0 && (size_t)cur < n && substep >= 0 && res[(size_t)cur].subcrashes.size() < max_resumes)
+            {
+                // crash inside a sub-step: record it and resume the case after that sub-step
+                CaseResult tmp;
+                tmp.signal = WIFSIGNALED(st) ? WTERMSIG(st) : 0;
+                tmp.status = (tmp.signal == SIGALRM) ? CaseResult::TimedOut : CaseResult::Crashed;
+                std::string err = read_file(dir + "/err." + std::to_string(w));
+                if (!WIFSIGNALED(st)) err += "\n[exit status " + std::to_string(WEXITSTATUS(st)) + "]";
+                classify(tmp, err);
+                SubCrash sc;
+                sc.substep = substep;
+                sc.timeout = tmp.status == CaseResult::TimedOut;
+                sc.kind = tmp.crash_kind;
+                sc.frame = tmp.crash_frame;
+                sc.head = tmp.crash_head;
+                res[(size_t)cur].subcrashes.push_back(sc);
+                sh->current[w].store(-1);
+                spawn(w, cur, substep + 1);
+                continue;
+            }
             if (cur >= 0 && (size_t)cur < n)
             {
                 CaseResult& r = res[(size_t)cur];
@@ -378,7 +425,7 @@ std::vector<CaseResult> run_pool(
             {
                 fprintf(stderr, "vx: worker %d died outside a case (status %d)\n", w, st);
             }
-            if (sh->next.load() < n && !(deadline_abs > 0 && now_s() > deadline_abs)) spawn(w);
+            if (sh->next.load() < n && !(deadline_abs > 0 && now_s() > deadline_abs)) spawn(w, -1, 0);
         }
     }
     // collect outputs
@@ -528,7 +575,7 @@ Evidence::Evidence(const Options& o, const std::string& level)
 }
 void Evidence::write(int violations, int known)
 {
-    if (getenv("VX_REPLAY")) return;  // replays never overwrite evidence
+    if (getenv("VX_REPLAY") || getenv("VERIF_NO_EVIDENCE")) return;  // replays / seeded-change runs never overwrite evidence
     j_["wall_s"] = now_s() - t0_;
     j_["violations"] = violations;
     j_["known_findings_hit"] = known;
